@@ -485,7 +485,8 @@ CfdpHdrGridPart(i, tier) ==
                                               !.seq = IdPat(WidthPairs[j][2], 16)] : j \in 1..16}, k \in 0..27}
 
 \* names: "", "a", 2-octet UTF-8 character + ".txt", 100 octets, 255 octets
-NameGrid == {<<>>, <<97>>, <<195, 164, 46, 116, 120, 116>>, Rep(100, 120)}
+\* (the last: a name that begins with the byte-order mark U+FEFF - it is a character of the name like any other)
+NameGrid == {<<>>, <<97>>, <<195, 164, 46, 116, 120, 116>>, Rep(100, 120), <<239, 187, 191, 110, 46, 116>>}
 LenGrid == {0, 1, 2, 127, 128, 254, 255, 256}
 EntitySample == [v |-> <<1, 2>>]
 CtlvSample(cls) == CASE cls = "entity" -> [v |-> <<1, 2>>] [] cls = "flow" -> [v |-> <<9, 8, 7>>]
